@@ -3,6 +3,7 @@ import Flurry.Gen.Serde
 import Flurry.Spec.Bulk
 import Flurry.Lin
 import Flurry.Proto.ResizeMonitor
+import Flurry.Proto.RwLockMonitor
 import Flurry.Seq.Iter
 /-! # Line-protocol driver for the sequential model (`lean_exe flurry-model`)
 
@@ -157,6 +158,21 @@ def parseCtlEvs (s : String) : Option (List Proto.ResizeMonitor.Ev) :=
       pure { tid := t, word := w, acc := k, a := a, b := b, ok := ok == "1", seen := seen }
     | _ => none
 
+/-- `tid:kind:a:b:seen` records of one tree bin's lock stream (`rw` request) -/
+def parseRwEvs (s : String) : Option (List Proto.RwLockMonitor.Ev) :=
+  if s == "" || s == "-" then some [] else
+  (s.splitOn ",").mapM fun p =>
+    match p.splitOn ":" with
+    | [t, k, a, b, seen] => do
+      let t ← t.toNat?
+      let k ← match k with
+        | "ld" => some Proto.RwLockMonitor.K.ld | "cas" => some .cas | "y" => some .y | "st" => some .st
+        | "fa" => some .fa | "wld" => some .wld | "wsw" => some .wsw | "park" => some .park
+        | "unpark" => some .unpark | _ => none
+      let a ← a.toInt?; let b ← b.toInt?; let seen ← seen.toInt?
+      pure { tid := t, k := k, a := a, b := b, seen := seen }
+    | _ => none
+
 def parseCalls (s : String) : Option Lin.History :=
   if s == "-" then some [] else
   (s.splitOn ",").mapM fun c =>
@@ -289,6 +305,10 @@ def step (st : St) (line : String) : St × String :=
     | some sd, some n0, some n1, some s0, some t0, some es =>
       (st, Proto.ResizeMonitor.accept sd n0 n1 s0 t0 (q == "q=1") es)
     | _, _, _, _, _, _ => (st, "bad-op")
+  | ["rw", n, q, evs] =>
+    match (kv "n=" n).bind parseNat?, (kv "ev=" evs).bind parseRwEvs with
+    | some n, some es => (st, Proto.RwLockMonitor.accept n (q == "q=1") es)
+    | _, _ => (st, "bad-op")
   | ["clear"] => withCur st fun m => (setCur st (clear m), "ok")
   | ["reserve", n] =>
     match n.toNat? with
